@@ -71,6 +71,12 @@ CHECKS.update({
             "class-I reasons are human arguments recorded in py/grules.py; syn/quote/proc_macro2 do not panic on valid tokens"),
 })
 
+CHECKS.update({
+    "C05": ("proof", "A+W+X", "relational abstract interpretation (linear inequalities, Fourier-Motzkin entailment) of the generated iterator's MIR + type-level compile witnesses",
+            "For each witness enum (N = 0..9, with/without disabled variants, type- and const-generic, 4 build configurations) the MIR of nth / next_back / size_hint / len / next / clone is interpreted forward in a relational domain over (idx, back_idx, n). Obligations: O1 every Assert(Overflow) is entailed for all n in usize and all cursor states satisfying the invariant (covers debug panic and release wrap-around alike); O2 the invariant 0 <= idx, back_idx <= N holds at every return; O3 the cursor specifications (item index, cursor updates, None exactly when exhausted, exact size_hint, len = size_hint().0, next = nth(0), clone copies the cursors). Send + Sync for arbitrary type parameters is a compile witness with a failing negative twin; the trait surface is read from the resolved impls and from strum::IntoEnumIterator's bounds.",
+            "per concrete N of the witness enums; refinement from O2+O3 to 'behaves like a double-ended iterator over the list' (O4) is a paper argument; core's default adapters trusted"),
+})
+
 NOT_YET = {
 }
 
